@@ -17,7 +17,9 @@ mod c01_data;
 mod c01_reasm;
 mod c02_credit;
 mod c03_sender;
+mod c07_alloc;
 mod c07_ports;
 mod c09_wire;
 mod c10_open;
 mod c13_vec;
+mod c99_tmp;
